@@ -2,7 +2,7 @@
 from __future__ import annotations
 
 from vlib.core import Check
-from vlib.hist_subjects import enumerate_histories, histories, run_history
+from vlib.hist_subjects import det_race, enumerate_histories, histories, run_history
 
 PROPERTY_ID = "C20"
 LEVEL = "exploration"
@@ -21,7 +21,7 @@ RULE = (
     "Non-trivial: the history has a subscribe after an accepted on_next AND (an in-callback unsubscribe of a still "
     "subscribed observer fired, or a subscribe after termination). "
     "A third check (falsy_error, run last) repeats short histories in which on_error is given a valid exception object whose "
-    "truth value is False (it defines __len__ == 0). Distinct = distinct case JSON."
+    "truth value is False (it defines __len__ == 0). det (Engine DET, vlib/det.py: line-level yield points, cooperative locks, subject created after patching): thread A subject.subscribe(recorder) || thread B a fixed list of 1-3 emitting calls, 0/1 observer subscribed beforehand, either thread scheduled first; every schedule with <=1 (quick) / <=2 (thorough) preemptions is run; oracle = linearizability against the same sequential model: the racing subscriber's list must equal the model's list for SOME position of its subscribe in the emitter's call sequence (so its first notification is the value current at registration and nothing earlier follows), earlier subscribers see the sequential outcome, no deadlock/exception; non-trivial = calls overlapped and >=2 distinct outcomes observed. det_error (run last): the same with on_error as the terminal call. Distinct = distinct case JSON."
 )
 ASSUMPTIONS = [
     "observers are attached through the public Observable.subscribe (auto-detaching wrapper included); within one delivery observers are served in subscription order",
@@ -52,11 +52,31 @@ def _enum(tier):
     return enumerate_histories(_ALPHABET, [{}], 4 if tier == "quick" else 6)
 
 
+_DET_PROGRAMS = [({}, [['next', 'i0']]), ({}, [['next', 'none'], ['next', 'i1']]), ({}, [['next', 'i0'], ['completed']]), ({}, [['completed']])]
+
+
+def _det_cases(tier):
+    K = 1 if tier == "quick" else 2
+    for cfg, emits in _DET_PROGRAMS:
+        for pre in (0, 1):
+            for first in ("sub", "emit"):
+                yield {"kind": "subject", "cfg": cfg, "emits": emits, "pre": pre, "first": first, "K": K}
+
+
+def _det_error_cases(tier):
+    K = 1 if tier == "quick" else 2
+    for emits in ([["error", "e1"]], [["next", "i0"], ["error", "e1"]]):
+        for first in ("sub", "emit"):
+            yield {"kind": "subject", "cfg": {}, "emits": emits, "pre": 1, "first": first, "K": K}
+
+
 def checks(tier):
     n = 40 if tier == "quick" else 120
     return [
         Check("enum", _run, cases=_enum, shards={"quick": 8, "thorough": 16}, exhaustive=True),
         Check("gen", _run, strategy=histories("subject", n), examples={"quick": 3200, "thorough": 16 * 20000}, shards={"quick": 8, "thorough": 16}),
-        # last on purpose: a failure here must not cut the two searches above short
+        Check("det", det_race, cases=_det_cases, shards={"quick": 8, "thorough": 16}, exhaustive=True),
+        # last on purpose: a failure here must not cut the searches above short
         Check("falsy_error", _run, strategy=histories("subject", 12, falsy_error=True), examples={"quick": 400, "thorough": 16 * 1000}, shards={"quick": 1, "thorough": 16}),
+        Check("det_error", det_race, cases=_det_error_cases, shards={"quick": 1, "thorough": 4}, exhaustive=True),
     ]
